@@ -189,3 +189,23 @@ pub fn u(v: &Value, f: &str) -> u64 {
 pub fn b(v: &Value, f: &str) -> bool {
     v.get(f).and_then(|x| x.as_bool()).unwrap_or(false)
 }
+
+/// does a subscription pattern (segments, `?` one level, trailing `#` one or more levels) match a key?
+/// Some(true/false), or None where implementations may differ (`#` standing for zero levels).
+/// Used only to decide which marker events a stream has to be waited for.
+pub fn marker_matches(pat: &[String], key: &[String]) -> Option<bool> {
+    for (i, p) in pat.iter().enumerate() {
+        if p == "#" {
+            return if key.len() > i { Some(true) } else { None };
+        }
+        match key.get(i) {
+            None => return Some(false),
+            Some(k) => {
+                if p != "?" && p != k {
+                    return Some(false);
+                }
+            }
+        }
+    }
+    Some(pat.len() == key.len())
+}
